@@ -60,6 +60,7 @@ void Exec::op_solve(Client &c) {
 	if (how == "exact") QSexact_set_precision(cur_precision);   // the start precision is a per-call knob of the plan, not a leftover of earlier solves
 	SolveOut so = raw_solve(o->p, how, algo, wantx, wanty, warm, wantb);
 	world.cur_model = 0; world.limit_at_read = -1; world.cancel_at = -1;
+	if (world.ladder_cut_in_op) { interrupted = true; probe("ladder.cut"); }   // the top rungs ran out of simulated time: judged like any other limit
 	if (iter_set) mpq_QSset_param(o->p, QS_PARAM_SIMPLEX_MAX_ITERATIONS, saved_iter);
 	if (time_set) mpq_QSset_param_EGlpNum(o->p, QS_PARAM_SIMPLEX_MAX_TIME, tq.at(1));
 	after_lib_call("solve:" + how);
@@ -86,11 +87,12 @@ void Exec::op_solve(Client &c) {
 	if (stop || o->broken) { compare_others("solve"); return; }
 
 	// C03: bounded liveness of the retry ladder / plain truth
-	bool c03_applies = how == "exact" && !interrupted && o->limits_default && (!faulted || faults_before_last) && o->m.well_formed() && !(o->m.cols.empty() && o->m.rows.empty());
+	bool c03_applies = how == "exact" && !interrupted && o->limits_default && (!faulted || faults_before_last) && o->m.well_formed() && o->m.moderate() && !(o->m.cols.empty() && o->m.rows.empty());
 	if (c03_applies) {
 		nontrivial("C03");
 		std::string cls = faulted ? "ladder-recovery" : "plain";
-		if (so.rv != 0 || !definitive(so.status)) violate("C03", cls + ":non-definitive:" + status_name(so.status) + strf(":rv%d", so.rv != 0) + ":stages-" + stageset, strf("exact solver with default limits returned rv=%d status %s %s", so.rv, status_name(so.status).c_str(), ladder.c_str()));
+		if (so.rv != 0 || !definitive(so.status)) { const RefResult &t = truth(o->m); std::string tn = (t.status && t.err.empty()) ? status_name(t.status) : "unknown";
+			violate("C03", cls + ":non-definitive:" + status_name(so.status) + strf(":rv%d", so.rv != 0) + ":truth-" + tn + ":stages-" + stageset, strf("exact solver with default limits returned rv=%d status %s %s; the reference solver finds the LP %s", so.rv, status_name(so.status).c_str(), ladder.c_str(), tn.c_str())); }
 	}
 	// truth on small LPs (C03 for the exact driver under default limits, C04 for every other way of driving)
 	if (so.rv == 0 && definitive(so.status) && o->m.well_formed()) {
